@@ -350,7 +350,7 @@ def build_ontology(et, o=None, name='t'):
     for i, p in enumerate(et['props']):
         otn = 'o.%s.%s' % (name, p['name'])
         ot = o.create_object_type(otn, data_type=p['dt'])
-        if p.get('regex'):
+        if p.get('regex') is not None:
             ot.set_regex_hard(p['regex'])
         pr = t.create_property(p['name'], otn)
         pr.set_optional(p['optional'])
@@ -479,7 +479,7 @@ def str_info(et, ev):
         for v in objs:
             cats = [unicodedata.category(c) for c in v]
             rx = None
-            if p.get('regex'):
+            if p.get('regex') is not None:
                 rx = re.fullmatch(p['regex'], v) is not None
             rows.append([pn, v, 'Lu' in cats, 'Ll' in cats, all(ord(c) < 256 for c in v), rx])
     return rows
@@ -509,7 +509,7 @@ STRUCT_REGEXES = [None, None, '[xy]', 'x|y|z', '[a-y]+', 'z']
 
 def good_values(p):
     pool = GOOD_VALUE[p['dt']]
-    if p.get('regex'):
+    if p.get('regex') is not None:
         pool = [v for v in pool if re.fullmatch(p['regex'], v)]
     return pool
 
